@@ -228,7 +228,9 @@ func (group *Group) pullIfNeeded() (string, error) {
 				rtmpSession.Dispose()
 				return
 			}
-		}).WithOnReadRtmpAvMsg(group.OnReadRtmpAvMsg)
+		}).WithOnReadRtmpAvMsg(func(msg base.RtmpMsg) {
+			group.onReadRtmpAvMsgFromPull(rtmpSession, msg)
+		})
 
 		uk = rtmpSession.UniqueKey()
 	} else {
@@ -276,6 +278,25 @@ func (group *Group) pullIfNeeded() (string, error) {
 	}(group.pullProxy.pullUrl, isPullByRtmp, rtmpSession, rtspSession)
 
 	return uk, nil
+}
+
+// onReadRtmpAvMsgFromPull
+//
+// pull session的数据回调在session创建时就已经设置，而session要等到回源成功后才会加入group（也可能因为已经有其他输入流而被拒绝），
+// 所以只有当session是当前已经加入group的pull session时，数据才会被转发，避免混入其他输入流的数据中。
+func (group *Group) onReadRtmpAvMsgFromPull(session *rtmp.PullSession, msg base.RtmpMsg) {
+	group.mutex.Lock()
+	defer group.mutex.Unlock()
+
+	if group.pullProxy.rtmpSession != session {
+		return
+	}
+
+	if group.dummyAudioFilter != nil {
+		group.dummyAudioFilter.Feed(msg)
+	} else {
+		group.broadcastByRtmpMsg(msg)
+	}
 }
 
 func (group *Group) stopPull() string {
